@@ -149,6 +149,7 @@ def run(ctx: common.Run):
         shapes = {'w': (2, 1, nq, 1)}
         check_views(ctx, cirq, result_mod, recs, shapes, rng)
     check_sampler(ctx, cirq)
+    check_processor_sampler(ctx, cirq)
 
 
 def check_views(ctx, cirq, result_mod, recs, shapes, rng):
@@ -359,6 +360,77 @@ def check_sampler(ctx, cirq):
                                 'theorem_or_correspondence': 'sampler entry points (T2) + C10 sweep order'})
 
 
+
+
+def check_processor_sampler(ctx, cirq):
+    """cirq_google.ProcessorSampler on a scripted processor: run / run_sweep / run_batch (for every batch size, with full and
+    partial batches, changing sweeps and repetition counts) return, per program and in sweep order, the results of the
+    underlying runs"""
+    import cirq_google
+    import duet
+    import sympy
+
+    rng = ctx.substream('processor-sampler')
+    qs = cirq.LineQubit.range(2)
+
+    def result_for(tag, resolver, reps):
+        key = tuple(sorted((str(k), float(v)) for k, v in resolver.param_dict.items()))
+        rs = np.random.RandomState(hash((tag, key)) % (2**31))
+        return cirq.ResultDict(params=resolver, records={'m': rs.randint(0, 2, size=(reps, 1, 2)).astype(np.uint8)})
+
+    class FakeJob:
+        def __init__(self, results):
+            self._results = results
+
+        async def results_async(self):
+            return self._results
+
+    class FakeProcessor:
+        def __init__(self):
+            self.calls = []
+
+        async def run_sweep_async(self, program, params, repetitions=1, **kwargs):
+            programs = list(program.values()) if isinstance(program, dict) else (list(program) if isinstance(program, (list, tuple)) else [program])
+            self.calls.append(len(programs))
+            out = []
+            for prog in programs:  # grouped by program, then by sweep point
+                for r in cirq.to_resolvers(params):
+                    out.append(result_for(prog.tags[0], r, repetitions))
+            return FakeJob(out)
+
+    n = 20 if ctx.tier == 'quick' else 200
+    for _ in range(n):
+        nprog = rng.randint(1, 6)
+        jobs_per_batch = rng.choice([1, 2, 3, 4])
+        programs = [cirq.Circuit(cirq.X(qs[0]) ** sympy.Symbol('t'), cirq.measure(*qs, key='m'), tags=[f'p{j}']) for j in range(nprog)]
+        sweeps = [cirq.Points('t', [0.0, 1.0, 0.5][: rng.choice([1, 2, 3])])]
+        sweeps.append(cirq.Linspace('t', 0, 1, 2))
+        shape = rng.choice(['same', 'same', 'mixed-sweeps', 'mixed-reps'])
+        params_list = [sweeps[0] if shape != 'mixed-sweeps' else rng.choice(sweeps) for _ in programs]
+        reps = [3 if shape != 'mixed-reps' else rng.choice([2, 3]) for _ in programs]
+        fake = FakeProcessor()
+        sampler = cirq_google.ProcessorSampler(processor=fake, jobs_per_batch=jobs_per_batch)
+        ctx.count('view', 'processor-sampler')
+        ctx.case(['processor-sampler', nprog, jobs_per_batch, shape, [repr(p) for p in params_list], reps], nprog >= 2)
+        rep = {'lines': [{'programs': nprog, 'jobs_per_batch': jobs_per_batch, 'params': [repr(p) for p in params_list], 'repetitions': reps}],
+               'theorem_or_correspondence': 'sampler entry points (T2)'}
+        want = [[result_for(prog.tags[0], r, rp) for r in cirq.to_resolvers(pl)] for prog, pl, rp in zip(programs, params_list, reps)]
+        try:
+            got = sampler.run_batch(programs, params_list=params_list, repetitions=reps)
+            got_async = duet.run(sampler.run_batch_async, programs, params_list, reps)
+        except ValueError as e:
+            ctx.report_witness('sampler:processor:run_batch', f'ProcessorSampler.run_batch raises on a valid batch: {str(e)[:100]}', dict(rep, impl_out=[str(e)[:200]], spec_out=['results per program']))
+            continue
+        for name, g in (('run_batch', got), ('run_batch_async', got_async)):
+            if [list(x) for x in g] != want:
+                ctx.report_witness(f'sampler:processor:{name}', f'ProcessorSampler.{name} does not return, per program and in sweep order, the results of the underlying runs',
+                                   dict(rep, impl_out=[[len(x) for x in g]], spec_out=[[len(x) for x in want]]))
+                break
+        if jobs_per_batch > 1 and max(fake.calls) > jobs_per_batch:
+            ctx.report_witness('sampler:processor:batch-size', 'ProcessorSampler sends more programs in one call than jobs_per_batch', dict(rep, impl_out=[fake.calls], spec_out=[jobs_per_batch]))
+        one = sampler.run_sweep(programs[0], params_list[0], reps[0])
+        if list(one) != want[0] or sampler.run(programs[0], cirq.ParamResolver({'t': 0.0}), reps[0]) != result_for('p0', cirq.ParamResolver({'t': 0.0}), reps[0]):
+            ctx.report_witness('sampler:processor:run_sweep', 'ProcessorSampler.run / run_sweep do not return the results of the underlying run', dict(rep, impl_out=[len(one)], spec_out=[len(want[0])]))
 
 
 def replay(ctx: common.Run, rep: dict) -> int:
